@@ -24,7 +24,7 @@ func runCaseC16(kind string, spec json.RawMessage) (vx.Out, bool) {
 func checkC16(tier string) int {
 	rep := vx.NewReport("C16", tier, "fault_enumeration")
 	vx.JobTimeout = 4 * time.Minute
-	rep.Rule = "fault enumeration: every sequence of <= N churn operations (create/delete topic and channel, ephemeral channel, first publish to a new topic, heartbeat ticks) x every sequence of <= M faults applied to successive connection attempts to nsqlookupd (refuse, accept-then-close, stall, garbage, replies with length prefix -1 / -2^31 / max-body+1 / 2^31-1, truncated reply, E_INVALID to IDENTIFY, restart with empty state) x one or two lookupds, on a real nsqd and real nsqlookupd(s) joined by in-memory connections; afterwards 4 heartbeat intervals of virtual time and a comparison of every lookupd's registrations with nsqd's topics/channels; a publish and a delivery must succeed after every step. distinct = distinct (case, outcome) pairs"
+	rep.Rule = "fault enumeration: every sequence of <= N churn operations (create/delete topic and channel, ephemeral channel, first publish to a new topic, heartbeat ticks) x every sequence of <= M faults applied to successive connection attempts to nsqlookupd (refuse, accept-then-close, stall, garbage, replies with length prefix -1 / -2^31 / max-body+1 / 2^31-1, truncated reply, E_INVALID to IDENTIFY, restart with empty state) x one or two lookupds; plus every sequence of <= K operations over {set the lookupd list at runtime to {}, {1}, {2}, {1,2}; create a topic; heartbeat tick} x <= 1 fault; on a real nsqd and real nsqlookupd(s) joined by in-memory connections; afterwards 4 heartbeat intervals of virtual time and a comparison of every lookupd's registrations with nsqd's topics/channels; a publish and a delivery must succeed after every step. distinct = distinct (case, outcome) pairs"
 	rep.Assumptions = []string{"default schedule (the notification path's interleavings are explored by the E1/E2 checks of C06/C08)", "virtual time; nsqd's hard-coded 15 s heartbeat and 1 s lookupd I/O deadlines are real code"}
 	faults := []string{"ok", "refuse", "close", "stall", "garbage", "neglen", "minlen", "overlimit", "hugelen", "trunc", "einvalid", "restart"}
 	ops := []string{"mk:a", "mkch:a:x", "rmch:a:x", "rm:a", "mkeph", "pub:fresh", "tick"}
@@ -42,8 +42,32 @@ func checkC16(tier string) int {
 			}
 		}
 	}
+	nChurn := len(jobs)
+	// runtime reconfiguration of the lookupd list interleaved with churn and heartbeats
+	cfgOps := []string{"cfg:-", "cfg:1", "cfg:2", "cfg:12", "mk:a", "tick"}
+	nCfg := 3
+	if tier == "thorough" {
+		nCfg = 4
+	}
+	for _, os := range seqs(cfgOps, nCfg) {
+		isCfg := false
+		for _, o := range os {
+			if len(o) > 4 && o[:4] == "cfg:" {
+				isCfg = true
+			}
+		}
+		if !isCfg {
+			continue
+		}
+		for _, fs := range append([][]string{{}}, seqs(faults, 1)...) {
+			jobs = append(jobs, caseJob{"sync", mustJSON(nsqd.SyncSpec{Lookupds: 2, Faults: fs, Ops: os})})
+		}
+	}
 	runCases(rep, jobs, 16)
 	rep.Extra["cases"] = len(jobs)
+	rep.Extra["churn_x_fault_cases"] = nChurn
+	rep.Extra["reconfiguration_cases"] = len(jobs) - nChurn
+	rep.Extra["max_reconfiguration_ops"] = nCfg
 	rep.Extra["max_churn_ops"] = nOps
 	rep.Extra["max_faults"] = nFaults
 	return rep.Finish()
